@@ -14,6 +14,7 @@ import ZygoVerif.Proofs.ParseChunks
 import ZygoVerif.Proofs.Abandon
 import ZygoVerif.Proofs.Stepwise
 import ZygoVerif.Proofs.StepwiseTrace
+import ZygoVerif.Proofs.StepwiseFuel
 import ZygoVerif.Generated.LexTables
 import ZygoVerif.Generated.ResetOrder
 namespace ZygoVerif.Props.C13
@@ -375,6 +376,40 @@ example : (PSt.fresh.parseBy (fuelFor threePieces) .resetAdd threePieces).1.expr
 example : (parseChunks threePieces).trace = [.done, .more, .done] := by
   rw [← (stepwise_is_run_partial PSt.fresh threePieces _ (Nat.le_refl _) (by decide +kernel)).2.2]
   decide +kernel
+
+/-- **`stepwise_is_run_of_fuel`: `FuelIsEnough → StepwiseIsRun`** — the whole of what is missing is
+a statement about the delivery model alone. Per text (`Proofs/StepwiseFuel.stepwise_of_fuel`): if the
+run of the delivery model on `cs` is the same run with every larger fuel, then from EVERY parser
+state, with every per-iterator fuel `F ≥ fuelFor cs`, the protocol gives the status, the expressions
+and the trace of `parseChunks cs`, WHATEVER the outcome (errors after a `done` included).
+Idea: seen from the delivery model, the protocol after its i-th `done` is the delivery model started
+with more fuel `G ≥ F` — every stage of the protocol is a stage of `run (topLoop G) t0`, uniformly in
+a further shift `d` of all fuel indices (`Shift`, `stage_ok`: a shifted program rests at the same
+state in the shifted rest; `S_topLoop_inj`: the fuel index of the rest is exact), and an error inside
+a piece ends both the same way (`run_split_none`, `stage_err`). -/
+theorem stepwise_is_run_of_fuel (h : FuelIsEnough) : StepwiseIsRun := by
+  intro p cs
+  exact stepwise_of_fuel cs (fuelFor cs) (Nat.le_refl _) (fun G hG => h cs G hG) p
+
+/-- the per-text form, with any per-iterator fuel -/
+theorem stepwise_is_run_for_text (cs : List (List Char)) (F : Nat) (hF : fuelFor cs ≤ F)
+    (hfe : ∀ G, fuelFor cs ≤ G → run (topLoop G) (initState LexState.init cs) =
+      run (topLoop (fuelFor cs)) (initState LexState.init cs)) (p : PSt) :
+    (p.parseBy F .resetAdd cs).1.status = (parseChunks cs).status ∧
+    (p.parseBy F .resetAdd cs).1.exprs = (parseChunks cs).exprs ∧
+    (p.parseBy F .resetAdd cs).1.trace = (parseChunks cs).trace :=
+  stepwise_of_fuel cs F hF hfe p
+
+/-- the hypothesis holds for every text whose parse is not an error (`run_fuel_mono`) -/
+example : ∀ G, fuelFor threePieces ≤ G → run (topLoop G) (initState LexState.init threePieces) =
+    run (topLoop (fuelFor threePieces)) (initState LexState.init threePieces) := by
+  intro G hG
+  refine run_fuel_mono _ _ hG _ ?_
+  have h2 : endsInErr (run (topLoop (fuelFor threePieces)) (initState LexState.init threePieces)).1 = false := by
+    decide +kernel
+  intro h
+  rw [h] at h2
+  exact absurd h2 (by decide)
 
 /-- **`stepwise_is_run_until_done`**: with the fuel of the delivery model, as long as no
 `ParseTokens` call before the last answers `done` (every piece but the last leaves the text
